@@ -144,6 +144,21 @@ theorem C12_flat_dict_without_raise_if_conflicts_raises_only_what_the_selection_
     have hc : Except.error e = Except.ok m' := h.symm.trans hm
     cases hc
 
+/-- C12: the default `include` selects exactly the completed results that carry a real value: not an error, not None,
+    not a forwarded event — and nothing else is left out; in particular falsy values (0, "", [], {}) are included. -/
+theorem C12_default_include_is_completed_with_a_real_value (r : Res) :
+    defaultInclude r = true ↔
+      (r.status = .completed ∧ r.value ≠ .none ∧ r.value.isExc = false ∧ r.err = none ∧ r.value.isEvent = false) := by
+  unfold defaultInclude
+  cases hv : r.value <;> cases he : r.err <;> cases hs : r.status <;> simp [Val.isNone, Val.isExc, Val.isEvent]
+
+theorem C12_default_include_keeps_falsy_values (h n : Nat) :
+    defaultInclude { hid := h, name := n, status := .completed, value := .int 0 } = true ∧
+    defaultInclude { hid := h, name := n, status := .completed, value := .str "" } = true ∧
+    defaultInclude { hid := h, name := n, status := .completed, value := .list [] } = true ∧
+    defaultInclude { hid := h, name := n, status := .completed, value := .dict [] } = true := by
+  simp [defaultInclude, Val.isNone, Val.isExc, Val.isEvent]
+
 /-- non-vacuity: three results, the second an error; default include -/
 example : firstResult [{ hid := 1, name := 1, status := .completed, value := .int 4 },
       { hid := 2, name := 2, status := .error, err := some (.handler 2) },
